@@ -662,6 +662,8 @@ func c20Ops() []c20Op {
 		add(name, opts, setup, func(_ *Client, st any) string { return call(st.(*File)) })
 	}
 	cl("Stat", func(c *Client) string { return fi(c.Stat("/f")) })
+	// a client configured for very large packets: what a reply may make it allocate is still bounded by what has arrived
+	add("Stat (client with a 32 MiB packet size)", []ClientOption{MaxPacketUnchecked(32 << 20)}, nil, func(c *Client, _ any) string { return fi(c.Stat("/f")) })
 	cl("Lstat", func(c *Client) string { return fi(c.Lstat("/l")) })
 	cl("ReadLink", func(c *Client) string { return ne(c.ReadLink("/l")) })
 	cl("RealPath", func(c *Client) string { return ne(c.RealPath("/d/../f")) })
